@@ -31,6 +31,8 @@ type BridgeCfg struct {
 	Chains []ChainSpec
 	// MevVals marks validators (by index) whose pigeon advertises the MEV trait.
 	MevVals map[int]bool
+	// MevOnlyOn restricts a validator's MEV trait to one chain (it relays through an MEV service there and nowhere else).
+	MevOnlyOn map[int]string
 	// NoFeeVals: validators that never register a relayer fee.
 	NoFeeVals map[int]bool
 	// NoFeeChains: chains for which no validator registers a relayer fee (the chain never gets a relayer).
